@@ -54,6 +54,11 @@ structure St where
   /-- the root cannot be opened at the moment (e.g. it has been replaced by a
   symbolic link): scans fail. -/
   broken : Bool
+  /-- the polling goroutine has decided to strobe (its scan, done under the
+  scan lock, saw a modification or failed) but the strobe has not been issued
+  and delivered yet: it is issued after the lock is released, and the coalescer
+  delivers the signal 20 ms later. -/
+  owed : Bool
   deriving DecidableEq, Repr
 
 def St.ver (s : St) : Nat := s.hist.length
@@ -64,9 +69,15 @@ def St.contentAt (s : St) (v : Nat) : Option Nat := (s.disk :: s.hist).reverse[v
 def init (repaired allowed : Bool) (disk : Nat) : St :=
   { repaired := repaired, allowed := allowed, disk := disk, hist := [], accelerate := false, snapshot := none,
     first := true, previous := 0, trans := none, sinceTrans := false, pending := false,
-    view := none, strobed := false, consumed := false, tver := 0, broken := false }
+    view := none, strobed := false, consumed := false, tver := 0, broken := false, owed := false }
 
 def strobe (s : St) : St := { s with pending := true, strobed := true }
+
+/-- The polling goroutine will strobe as soon as it gets to it. -/
+def owe (s : St) : St := { s with owed := true }
+
+/-- The owed strobe is issued and its signal delivered. -/
+def deliver (s : St) : St := if s.owed then strobe { s with owed := false } else s
 
 def setDisk (s : St) (c : Nat) : St := { s with disk := c, hist := s.disk :: s.hist }
 
@@ -91,12 +102,12 @@ def tickIgnore (s : St) : Bool :=
 def tick (s : St) : St :=
   -- e.accelerate = false; e.scan(...); e.accelerate = e.accelerationAllowed
   let s1 := { s with first := false, snapshot := some ⟨s.disk, s.ver⟩, accelerate := s.allowed, previous := s.disk }
-  if s.disk ≠ tickBaseline s ∧ tickIgnore s = false then strobe s1 else s1
+  if s.disk ≠ tickBaseline s ∧ tickIgnore s = false then owe s1 else s1
 
 /-- An iteration of the polling loop whose scan fails: acceleration stays off,
 the poll signal is strobed ("the controller can then perform a full scan"), and
 the loop goes on polling. -/
-def tickFail (s : St) : St := strobe { s with first := false, accelerate := false }
+def tickFail (s : St) : St := owe { s with first := false, accelerate := false }
 
 /-- `Scan(full)`: returns the snapshot handed to the controller. -/
 def scan (s : St) (full : Bool) : St × Snap :=
@@ -165,6 +176,7 @@ inductive Label
   | edit (c : Nat)
   | poll
   | setBroken (b : Bool)
+  | deliver
   deriving DecidableEq, Repr
 
 /-- The step relation (a `Scan` or a polling scan needs the scan lock, which a
@@ -173,6 +185,7 @@ inductive Step : St → Label → St → Prop
   | tick (s) : s.broken = false → Step s .tick (tick s)
   | tickFail (s) : s.broken = true → Step s .tick (tickFail s)
   | setBroken (s b) : Step s (.setBroken b) { s with broken := b }
+  | deliver (s) : Step s .deliver (deliver s)
   | scan (s full) : s.trans = none → s.broken = false → Step s (.scan full (scan s full).2.content) (scan s full).1
   | transBegin (s c s') : transBegin s c = some s' → Step s (.transBegin c) s'
   | transApply (s s') : transApply s = some s' → Step s .transApply s'
